@@ -17,6 +17,7 @@ SEMANTIC = [
     ('precondition not satisfied', 'requires'),
     ('invariant not satisfied', 'invariant'),
     ('assertion failed', 'assert'),
+    ('requires not satisfied', 'assert'),
     ('possible arithmetic underflow/overflow', 'overflow'),
     ('possible division by zero', 'div0'),
     ('possible bit shift underflow/overflow', 'overflow'),
